@@ -30,6 +30,7 @@ TOKS = {
     'B': {'kind': 'ws', 'return_set': False},
     'QB': {'kind': 'qgram', 'q': 2, 'padding': True, 'return_set': False},
     'QS': {'kind': 'qgram', 'q': 3, 'padding': True, 'return_set': True},
+    'QU': {'kind': 'qgram', 'q': 2, 'padding': False, 'return_set': True},
     'D': {'kind': 'qgram', 'q': 2, 'padding': True, 'return_set': False},   # the implicit default
 }
 
@@ -73,11 +74,11 @@ def random_step(rng, pool):
         api = rng.choice(T.JOINS)
         call = dict(base, api=api, allow_missing=rng.random() < 0.3, out_sim_score=rng.random() < 0.8)
         if api == 'edit_distance_join':
-            step['tok'] = rng.choice(['QB', 'QS', 'D', 'D'])
+            step['tok'] = rng.choice(['QB', 'QS', 'QU', 'D', 'D'])
             call['threshold'] = rng.choice([0, 1, 2, 3])
             call['comp_op'] = rng.choice(['<=', '<', '='])
         else:
-            step['tok'] = rng.choice(['S', 'B', 'QB', 'QS'])
+            step['tok'] = rng.choice(['S', 'B', 'QB', 'QS', 'QU'])
             call['comp_op'] = rng.choice(['>=', '>', '='])
             if api == 'overlap_join':
                 call['threshold'] = rng.choice([1, 2])
@@ -111,7 +112,7 @@ def random_step(rng, pool):
                 f['threshold'] = rng.choice([0, 1, 2])
             else:
                 f['threshold'] = gen.random_threshold(rng)
-            step['tok'] = rng.choice(['QB', 'QS']) if m == 'EDIT_DISTANCE' else rng.choice(['S', 'B', 'QB', 'QS'])
+            step['tok'] = rng.choice(['QB', 'QS']) if m == 'EDIT_DISTANCE' else rng.choice(['S', 'B', 'QB', 'QS', 'QU'])
         prev = pool.setdefault('_filters', [])
         if prev and rng.random() < 0.5:
             f, step['tok'] = rng.choice(prev)
@@ -132,7 +133,14 @@ def random_step(rng, pool):
                     allow_missing=rng.random() < 0.3, out_sim_score=rng.random() < 0.8)
         call['candset'] = gen.random_candset(rng, L, R, 'lid', 'rid', size=rng.choice([0, 2, 6, 15, 30]))
         call['c_l_key'], call['c_r_key'] = 'l_lid', 'r_rid'
-        step['tok'] = rng.choice(['S', 'B', 'QB', 'QS'])
+        if rng.random() < 0.15:
+            # a hand-made candidate set: the pair-id column is not called _id
+            cs = call['candset']
+            cs['cols'] = ['pair_id' if c == '_id' else c for c in cs['cols']]
+            cs['data']['pair_id'] = cs['data'].pop('_id')
+            if '_id' in cs.get('dtypes', {}):
+                cs['dtypes']['pair_id'] = cs['dtypes'].pop('_id')
+        step['tok'] = rng.choice(['S', 'B', 'QB', 'QS', 'QU'])
     elif r < 0.94:
         side = rng.choice('lr')
         tbl = L if side == 'l' else R
@@ -152,6 +160,8 @@ def random_step(rng, pool):
         else:
             call = {'api': 'series_to_str', 'ltable': tbl, 'col': col, 'inplace': False}
         step['tables'] = {'ltable': (side, li if side == 'l' else ri)}
+    if rng.random() < 0.1 and call['api'] not in ('filter_pair', 'profile', 'dataframe_column_to_str', 'series_to_str'):
+        call['show_progress'] = True
     step['call'] = call
     return step
 
